@@ -372,3 +372,15 @@ package document
 //@   assigns nothing
 //@   trustedframe
 //@   safety all
+
+// country of the security object's embedded certificates / of the MRZ issuing state (string and CMS processing: trusted)
+//@ uf sodCountry(ref) seq
+//@ func (sod SOD) CertCountryAlpha2
+//@   trusted
+//@   ensures result1 == nil ==> result0 === sodCountry(ref(sod.SD)) && len(result0) >= 1
+//@   assigns nothing
+//@ uf dg1Country(ref) seq
+//@ func (dg1 DG1) IssuingCountryAlpha2
+//@   trusted
+//@   ensures result1 == nil ==> result0 === dg1Country(ref(dg1.Mrz))
+//@   assigns nothing
